@@ -37,6 +37,8 @@ BREAKING = [
  ("C11-F4-reverted", ["C11", "C12"], "kernel/cry.cpp", "  if (header.getctype() > 4 || header.gethtype() > 2)\n    return 3;\n", ""),
  ("C11-F5-reverted", ["C11"], "kernel/multi_aes/multi_buffergroup.cpp", "    if (padding > 16)\n      padding = 0;", "    if (padding > 160)\n      padding = 0;"),
  ("C11-tag-area-length-16", ["C11", "C12"], "kernel/cry.cpp", "u8_t *hash = header.getHmac(64);", "u8_t *hash = header.getHmac(16);"),
+ ("C18-dialog-seed-cut-at-8", ["C18"], "valget/getval1.cpp", "int r = scanf(\"%s\", res->r_buf);", "int r = scanf(\"%8s\", res->r_buf);"),
+ ("C06-dialog-key-from-second-char", ["C06"], "valget/getval1.cpp", "  base64_to_hex(kn, 24, keyout);\n  return keyout;", "  base64_to_hex(kn + 1, 23, keyout);\n  return keyout;"),
  ("C13-tag-field-prefilled", ["C13", "C02"], "kernel/fheader.cpp", "memset(padding, 0, sizeof(padding));", "memset(padding, 0xFF, sizeof(padding));"),
  ("C17-F9-reverted", ["C17"], "valget/getopts.cpp", "    long v = strtol(arg, NULL, 10);\n    return (v == (long)(int)v) ? (int)v : -1;", "    return atoi(arg);"),
  ("C15-F8-reverted", ["C15"], "valget/getopts.cpp", "    optind = 0;", "    optind = 1;"),
@@ -66,6 +68,8 @@ HARMLESS = [
  ("H-sha1-ch-xor-form", ["C07"], "kernel/hash/sha1.cpp", "#define HASH_A(h1, h2, h3) ((h1 & h2) | ((~h1) & h3))", "#define HASH_A(h1, h2, h3) ((h1 & h2) ^ ((~h1) & h3))"),
  ("H-longopts-reordered", ["C17", "C15"], "valget/getopts.cpp", "    {\"encode\", no_argument, NULL, 'e'},\n    {\"decode\", no_argument, NULL, 'd'},", "    {\"decode\", no_argument, NULL, 'd'},\n    {\"encode\", no_argument, NULL, 'e'},"),
  ("H-optind-reset-twice", ["C15", "C17"], "valget/getopts.cpp", "    optind = 0;", "    optind = 1;\n    optind = 0;"),
+ ("H-dialog-seed-width-255", ["C18", "C06"], "valget/getval1.cpp", "int r = scanf(\"%s\", res->r_buf);", "int r = scanf(\"%255s\", res->r_buf);"),
+ ("H-dialog-prompt-text", ["C18"], "valget/getval1.cpp", "printf(\"Please input some random characters.\\n\");", "printf(\"Seed (any characters, no blanks):\\n\");"),
  ("H-header-one-write", ["C13", "C02"], "kernel/fheader.cpp", "    fwrite(&ctype, 1, 1, out);\n    fwrite(&htype, 1, 1, out);", "    u8_t modes[2] = {ctype, htype};\n    fwrite(modes, 1, 2, out);"),
 ]
 
